@@ -22,7 +22,7 @@ LEVEL_TEXT = ("seeded search over thread interleavings of generated checkout/use
 LEVEL_NOTE = ("pre-emption at line granularity (model F) or after call/back-edge lines (model G) in the traced files only; C code atomic; "
               "sim Lock/RLock/Condition replace threading primitives; AsyncAdaptedQueuePool is exercised under loopsim (C29), not here")
 TIERS = {
-    "quick": {"runs": 1400, "secs": 30},
+    "quick": {"runs": 4000, "secs": 30},
     "thorough": {"runs": 80000, "secs": 480, "hashseeds": [0, 1]},
 }
 SHRINK = ["switches"]
